@@ -14,6 +14,14 @@ namespace FontVerif.Ift
 
 def Stateless (dec : Decoder) : Prop := ∀ i j s b m, dec i s b m = dec j s b m
 
+/-- a decoder that is a pure function of (brotli stream, optional dictionary, max length) — what
+`SharedBrotliDecoder::decode(&self, encoded, dict, max_len)` of the real brotli decoders is assumed to
+be: the call index is ignored -/
+def pureDecoder (f : Bytes → Option Bytes → Nat → Except DErr Bytes) : Decoder := fun _ s b m => f s b m
+
+theorem pureDecoder_stateless (f : Bytes → Option Bytes → Nat → Except DErr Bytes) :
+    Stateless (pureDecoder f) := fun _ _ _ _ _ => rfl
+
 def prepOne (font : Font) (dec : Decoder) (ip : PatchInfo × Bytes) : Option (PatchInfo × GlyphPatches) :=
   match fontCompatId font ip.1.tag with
   | .error _ => none
